@@ -92,6 +92,13 @@ def step (st : St) (ts : List String) : St × String :=
       let (o, r) := runCtor extF t (argMap kv)
       (some (t, o), resS r)
   | ["erf", x] => (st, fF (erfF (pF x)))
+  -- subscriptions: "subs <n profiles> <l> <p> <l> <p> …" -> for every profile the lasers registered on its notifier
+  | "subs" :: np :: rest =>
+    let rec pairs : List String → List (Nat × Nat)
+      | l :: p :: t => (pN l, pN p) :: pairs t
+      | _ => []
+    let sc := attachAll emptyScene (pairs rest)
+    (st, "|".intercalate ((List.range (pN np)).map fun p => ",".intercalate ((sc.subs p).map toString)) ++ "|")
   | ["seg", r, l] => (st, segS (generateSegmentedCylinder extF (pF r) (pF l)))
   | ["specc", lo, hi, n] =>
     let (lo, hi, n) := (pF lo, pF hi, pN n)
